@@ -40,21 +40,29 @@ class ToyH:
             self.ps[int(i)] = other.ps[k]
 
 
+DEEP_E = 100
+
+
 class ToyLM:
-    def __init__(self, nc, m):
-        self.nc, self.m = nc, m
+    """e > 1 ("deep" flavour): the same LM raised to the power e, i.e. every log-probability multiplied by e, so that single
+    continuations score far below -80 (down to e * log(1/m)).  Used with LM scale s / e and insertion bonus e * log(Bonus) the
+    fused objective vis + scale * LM is unchanged, hence the same TLC model applies; the reported LM scores are divided by e
+    when they are recorded."""
+
+    def __init__(self, nc, m, e=1):
+        self.nc, self.m, self.e = nc, m, e
 
     def initial_h(self, n):
         return ToyH([()] * n)
 
     def log_probs(self, h):
-        return np.array([[math.log(lm_w(p, c) / self.m) for c in range(1, self.nc + 1)] for p in h.ps])
+        return self.e * np.array([[math.log(lm_w(p, c) / self.m) for c in range(1, self.nc + 1)] for p in h.ps])
 
     def advance_h0(self, c_inds, h):
         return ToyH([p + (int(c) + 1,) for p, c in zip(h.ps, c_inds)])
 
     def eos_scores(self, h):
-        return np.array([math.log(eos_w(p) / self.m) for p in h.ps])
+        return self.e * np.array([math.log(eos_w(p) / self.m) for p in h.ps])
 
 
 # ---- the same toy LM behind the REAL LMWrapper / HiddenState (pero_ocr/decoding/lm_wrapper.py) -------------------------
@@ -119,7 +127,8 @@ def wrapped_state(hist):
 
 
 def rows_of(nc, d, normalised=True):
-    rows = itertools.product(range(d + 1), repeat=nc + 1)
+    # unnormalised rows go up to weight d + 1: a single symbol may carry more than the whole probability mass (log-prob > 0)
+    rows = itertools.product(range(d + 1 if normalised else d + 2), repeat=nc + 1)
     return [r for r in rows if (sum(r) == d or not normalised)]
 
 
@@ -196,7 +205,7 @@ def _decode_one(mat):
                     ln = len(h.transcript)
                     vis = math.exp(h.vis_sc) * d ** t
                     if use_lm:
-                        lm = math.exp(h.lm_sc) * m ** (ln + (1 if (eos and last) else 0))
+                        lm = math.exp(h.lm_sc / c.get("lm_e", 1)) * m ** (ln + (1 if (eos and last) else 0))
                     else:
                         lm = 1.0
                     beam.append({"p": [ord(ch) - 96 for ch in h.transcript], "s": _milli(vis), "l": _milli(lm)})
@@ -227,8 +236,10 @@ def run_config(cfg, mats):
     if sel is not None:
         kw["relevant_logits_selector"] = sel
     if cfg["UseLm"]:
-        lm = make_wrapped_lm(cfg["NC"], cfg["M"]) if cfg.get("lm_impl") == "wrapped" else ToyLM(cfg["NC"], cfg["M"])
-        kw.update(lm=lm, lm_scale=cfg["SP"] / cfg["SQ"], insertion_bonus=math.log(cfg["Bonus"]))
+        e = DEEP_E if cfg.get("lm_impl") == "deep" else 1
+        cfg = dict(cfg, lm_e=e)
+        lm = make_wrapped_lm(cfg["NC"], cfg["M"]) if cfg.get("lm_impl") == "wrapped" else ToyLM(cfg["NC"], cfg["M"], e)
+        kw.update(lm=lm, lm_scale=cfg["SP"] / cfg["SQ"] / e, insertion_bonus=e * math.log(cfg["Bonus"]))
     k = cfg["K"]
     dec = CTCPrefixLogRawNumpyDecoder(letters, k, **kw)
     _CFG = dict(cfg)
